@@ -124,6 +124,14 @@ impl TryFrom<&AST> for GenericClass {
                     match ClassArgument::try_from(arg) {
                         Err(err) => arg_errs.push(err),
                         Ok(ClassArgument { field, fun_arg }) => {
+                            if class_args
+                                .iter()
+                                .any(|arg: &GenericFunctionArg| arg.name == fun_arg.name)
+                            {
+                                let msg = format!("Duplicate argument: {}", fun_arg.name);
+                                arg_errs.push(vec![TypeErr::new(arg.pos, &msg)]);
+                                continue;
+                            }
                             if let Some(field) = field {
                                 class_args.push(fun_arg);
                                 argument_fields.insert(field.in_class(
